@@ -158,7 +158,8 @@ def gen_cases(tier, seed):
     q = tier == "quick"
     # the last two: seed-sensitive meters (irregular load shapes / a supplemental column) fitted with the legal explicit seed 0
     # ... and a degenerate meter: a timer-driven load whose (month, weekday) load shapes are all identical (clustering has nothing to separate)
-    fams = ["daily:current", "daily:legacy", "billing", "hourly:default", "hourly:default:ghi", "caltrack", "hourly:default:irregular", "hourly:supp", "hourly:default:timer"]
+    fams = ["daily:current", "daily:legacy", "billing", "hourly:default", "hourly:default:ghi", "caltrack", "hourly:default:irregular", "hourly:supp", "hourly:default:timer", "hourly:default:edgegaps"]
+    # (the last one: missing hours within a day of the first / last timestamp - the lag/lead interpolation works at the edge of its arrays)
     if not q:
         fams = fams + ["daily:dev-alpha-all", "daily:custom-maps", "hourly:robust", "hourly:adaptive", "hourly:clusters6", "daily:current", "daily:current", "hourly:default",
                        "billing", "daily:legacy", "hourly:bins8:ghi", "daily:dev-nofinal", "caltrack", "daily:dev-c_hdd", "hourly:noedge", "daily:legacy-dev-splits", "billing", "daily:current"]
